@@ -139,7 +139,7 @@ def main():
             if filt is not None:
                 missing = set(filt) - {m['qual'] for m in metas}
                 # lemma / spec-library proof functions may be named in the filter too
-                missing = {x for x in missing if x not in r['functions']}
+                missing = {x for x in missing if x not in r['functions'] and x.split('::')[-1] not in getattr(verus.generate, 'skipped', [])}
                 if missing:
                     undecided.append('unit %s: functions named in the registry are not in the unit: %s' % (u, sorted(missing)))
             lemma_fns = [n for n, f in r['functions'].items() if f.get('mode') == 'proof']
